@@ -766,6 +766,8 @@ def judge(case):
     lazyA, lazyB = bool(case["A"].get("lazy")), bool(case["B"].get("lazy"))
     if lazyA or lazyB:
         out.cls("lazy-operand")
+    if case["A"].get("hug"):
+        out.cls("overlap-plus-shared-boundary")
     scales = [s for s in (oa.scale, ob.scale) if np.isfinite(s) and s > 0]
     band = 1e-3 * max(scales + [1.0])
     P = make_probes(oa, ob, rng, case["nprobe"], band)
